@@ -6,6 +6,7 @@ from ..poly import Sym, equal_mod
 from .. import poly
 from ..interp import (Interp, Hooks, Opaque, Str, Tup, Cmp, Bound, ExtRef, NONE, Const)
 from ..model import AnalysisError
+from .. import purity
 
 ALIGNS = {  # canonical spelling -> (fx, fy)
     'xMinYMin': (0, 0), 'xMidYMin': (Fraction(1, 2), 0), 'xMaxYMin': (1, 0),
@@ -121,6 +122,7 @@ def run(ck, prog, tier):
                        'str.strip/replace/lower/split library semantics on the literal attribute']
     ck.trusted += ['python ast module', 'vf.poly', 'vf.interp', 'SVG 1.1 7.8 transcribed in '
                    'vf/props/c11.py']
+    purity.check(ck, prog, ['plot_utils.vb_scale'], 'C11-R-pure')
     fn = prog.func('plot_utils.vb_scale')
     if fn.params != ['v_b', 'p_a_r', 'doc_width', 'doc_height']:
         raise AnalysisError('vb_scale signature changed')
